@@ -103,6 +103,10 @@ func Load(cfg Config) (*Program, error) {
 			return nil, fmt.Errorf("controls: %w", err)
 		}
 	}
+	if _, err := os.Stat("/opt/veriftools/go1.26.8/bin/go"); err == nil && !strings.HasPrefix(os.Getenv("PATH"), "/opt/veriftools/go1.26.8/bin") {
+		// go/packages resolves the go command through this process's PATH
+		os.Setenv("PATH", "/opt/veriftools/go1.26.8/bin:"+os.Getenv("PATH"))
+	}
 	env := os.Environ()
 	if cfg.GOOS != "" {
 		env = append(env, "GOOS="+cfg.GOOS)
@@ -336,6 +340,11 @@ func FuncName(fn *ssa.Function) string {
 
 // Reachable returns the set of functions reachable in the call graph from roots.
 func (p *Program) Reachable(roots []*ssa.Function) map[*ssa.Function]bool {
+	return p.ReachableSkip(roots, nil)
+}
+
+// ReachableSkip is Reachable with some call-graph edges ignored.
+func (p *Program) ReachableSkip(roots []*ssa.Function, skip map[*callgraph.Edge]string) map[*ssa.Function]bool {
 	seen := map[*ssa.Function]bool{}
 	var stack []*ssa.Function
 	for _, r := range roots {
@@ -352,6 +361,9 @@ func (p *Program) Reachable(roots []*ssa.Function) map[*ssa.Function]bool {
 			continue
 		}
 		for _, e := range n.Out {
+			if _, sk := skip[e]; sk {
+				continue
+			}
 			c := e.Callee.Func
 			if c != nil && !seen[c] {
 				seen[c] = true
